@@ -6,10 +6,10 @@ import XknxVerif.Model.Send
 
 namespace XknxVerif.Send
 
-/-- A transcoder result that is itself sound: a returned DPTArray holds octets and fits one frame.
+/-- A transcoder result that is itself sound: a returned DPTArray is not empty, holds octets and fits one frame.
 (`DPTBinary` results are range-checked by the DPTBinary constructor, so nothing is assumed for them.) -/
 def TransOK : TransRes → Prop
-  | .arr items => items.all itemOctet = true ∧ items.length + 1 ≤ Generated.Send.maxNpduLength
+  | .arr items => items ≠ [] ∧ items.all itemOctet = true ∧ items.length + 1 ≤ Generated.Send.maxNpduLength
   | _ => True
 
 /-- Configuration side conditions: a raw remote value is configured with a length that fits a frame; a
@@ -117,27 +117,34 @@ theorem finalGuards_ok (p0 p : Payload) (hb : ∀ n, p0 = .bin n → wireValid p
     exact hb n rfl
   | arr xs =>
     simp only [finalGuards] at h
-    by_cases h1 : xs.all itemOctet = true
-    · by_cases h2 : xs.length ≥ Generated.Send.maxNpduLength
-      · simp [h1, h2] at h
-      · simp only [h1, Bool.not_true, Bool.false_eq_true, if_false, h2, Except.ok.injEq] at h
-        subst h
-        simp only [wireValid, h1, Bool.true_and, decide_eq_true_eq]
-        omega
-    · simp [h1] at h
+    by_cases h0 : xs.isEmpty = true
+    · simp [h0] at h
+    · have h0' : xs.isEmpty = false := by simpa using h0
+      by_cases h1 : xs.all itemOctet = true
+      · by_cases h2 : xs.length ≥ Generated.Send.maxNpduLength
+        · simp [h0', h1, h2] at h
+        · simp only [h0', h1, Bool.not_true, Bool.false_eq_true, if_false, h2, Except.ok.injEq] at h
+          subst h
+          simp only [wireValid, h0', h1, Bool.not_false, Bool.true_and, decide_eq_true_eq]
+          omega
+      · simp [h0', h1] at h
 
 theorem finalGuards_err (p : Payload) (e : Err) (h : finalGuards p = .error e) : e = .conversion := by
   cases p with
   | bin n => simp [finalGuards] at h
   | arr xs =>
     simp only [finalGuards] at h
-    by_cases h1 : xs.all itemOctet = true
-    · by_cases h2 : xs.length ≥ Generated.Send.maxNpduLength
-      · simp only [h1, Bool.not_true, Bool.false_eq_true, if_false, h2, if_true, Except.error.injEq] at h
-        exact h.symm
-      · simp [h1, h2] at h
-    · simp only [h1, Bool.not_false, if_true, Except.error.injEq] at h
+    by_cases h0 : xs.isEmpty = true
+    · simp only [h0, if_true, Except.error.injEq] at h
       exact h.symm
+    · have h0' : xs.isEmpty = false := by simpa using h0
+      by_cases h1 : xs.all itemOctet = true
+      · by_cases h2 : xs.length ≥ Generated.Send.maxNpduLength
+        · simp only [h0', h1, Bool.not_true, Bool.false_eq_true, if_false, h2, if_true, Except.error.injEq] at h
+          exact h.symm
+        · simp [h0', h1, h2] at h
+      · simp only [h0', Bool.false_eq_true, if_false, h1, Bool.not_false, if_true, Except.error.injEq] at h
+        exact h.symm
 
 /-- a DPTBinary leaving `parseCore` is either the caller's own object or was range-checked -/
 theorem parseCore_bin (tr : Option TransRes) (v : PyVal) (n : Int) (h : parseCore tr v = .ok (.bin n)) :
@@ -203,8 +210,15 @@ theorem rawToKnx_ok (len : Nat) (hl : len + 1 ≤ Generated.Send.maxNpduLength) 
       by_cases hr : 0 ≤ n ∧ n.toNat < 256 ^ len
       · simp only [hr, and_self, if_true, Except.ok.injEq] at h
         subst h
-        simp only [wireValid, ofNatBE_items_octet, List.length_map, Bytes.ofNatBE_length, Bool.true_and,
-          decide_eq_true_eq]
+        have hne : ((Bytes.ofNatBE len n.toNat).map fun b => Item.int (Int.ofNat b)).isEmpty = false := by
+          cases hm : (Bytes.ofNatBE len n.toNat).map fun b => Item.int (Int.ofNat b) with
+          | nil =>
+            have := congrArg List.length hm
+            simp only [List.length_map, Bytes.ofNatBE_length, List.length_nil] at this
+            exact absurd this h0
+          | cons _ _ => rfl
+        simp only [wireValid, hne, Bool.not_false, ofNatBE_items_octet, List.length_map, Bytes.ofNatBE_length,
+          Bool.true_and, decide_eq_true_eq]
         exact hl
       · simp [hr] at h
 
@@ -236,8 +250,8 @@ theorem scaleQ_ok (rf rt num : Int) (den : Nat) (p : Payload) (h : scaleQ rf rt 
     by_cases ho : octet (roundHalfEven ((num - rf * den) * 255 * (if rt - rf < 0 then -1 else 1)) (den * (rt - rf).natAbs)) = true
     · simp only [ho, if_true, Except.ok.injEq] at h
       subst h
-      simp only [wireValid, List.all_cons, itemOctet, ho, List.all_nil, Bool.and_self, List.length_cons,
-        List.length_nil, Bool.true_and, decide_eq_true_eq]
+      simp only [wireValid, List.isEmpty_cons, Bool.not_false, List.all_cons, itemOctet, ho, List.all_nil,
+        Bool.and_self, List.length_cons, List.length_nil, Bool.true_and, decide_eq_true_eq]
       decide
     · simp [ho] at h
 
